@@ -1,7 +1,10 @@
 use crate::sup::{Check, Ctx};
 
 pub mod c01;
+pub mod c02;
+pub mod flow;
 pub mod heap;
+pub mod meta;
 pub mod c05;
 pub mod c06;
 pub mod c07;
@@ -9,20 +12,27 @@ pub mod c08;
 pub mod c13;
 pub mod c14;
 pub mod c15;
+pub mod c16;
 pub mod c17;
 
 pub fn make(id: &str) -> Option<Box<dyn Check>> {
     match id {
         "C01" => Some(Box::new(c01::C01::new())),
+        "C02" => Some(Box::new(c02::C02::new())),
         "C03" => Some(Box::new(heap::Heap::new(heap::Which::C03))),
         "C04" => Some(Box::new(heap::Heap::new(heap::Which::C04))),
         "C05" => Some(Box::new(c05::C05::new())),
         "C06" => Some(Box::new(c06::C06::new())),
         "C07" => Some(Box::new(c07::C07::new())),
         "C08" => Some(Box::new(c08::C08::new())),
+        "C09" => Some(Box::new(meta::Meta::new(meta::Which::C09))),
+        "C10" => Some(Box::new(meta::Meta::new(meta::Which::C10))),
+        "C11" => Some(Box::new(flow::Flow::new(flow::Which::C11))),
+        "C12" => Some(Box::new(flow::Flow::new(flow::Which::C12))),
         "C13" => Some(Box::new(c13::C13::new())),
         "C14" => Some(Box::new(c14::C14::new())),
         "C15" => Some(Box::new(c15::C15::new())),
+        "C16" => Some(Box::new(c16::C16::new())),
         "C17" => Some(Box::new(c17::C17::new())),
         _ => None,
     }
